@@ -4,6 +4,7 @@ package c11
 import (
 	"context"
 	"fmt"
+	"strings"
 
 	"github.com/cloudwego/dynamicgo/thrift"
 	"github.com/cloudwego/dynamicgo/thrift/generic"
@@ -365,7 +366,7 @@ func (check) Enumerate(tier string, seed int64, group int, yield func(core.Case)
 		hi = len(ps)
 	}
 	for _, p := range ps[lo:hi] {
-		for _, parse := range []string{"same-parse", "separate-parse"} {
+		for _, parse := range []string{"same-parse", "separate-parse", "separate-parse,SetOptionalBitmap"} {
 			for _, variant := range variants {
 				p, parse, variant := p, parse, variant
 				c := core.Case{
@@ -402,8 +403,9 @@ func descsOf(p pair, parse string) (fd, td *thrift.TypeDescriptor, err error) {
 }
 
 func descsOf0(p pair, parse string) (fd, td *thrift.TypeDescriptor, err error) {
+	po := thrift.Options{SetOptionalBitmap: strings.Contains(parse, "SetOptionalBitmap")}
 	get := func(idl string, i int) (*thrift.TypeDescriptor, error) {
-		svc, err := thrift.Options{}.NewDescritorFromContent(context.Background(), "a/b/main.thrift", idl, nil, false)
+		svc, err := po.NewDescritorFromContent(context.Background(), "a/b/main.thrift", idl, nil, false)
 		if err != nil {
 			return nil, fmt.Errorf("%v\n%s", err, idl)
 		}
@@ -431,7 +433,7 @@ func descsOf0(p pair, parse string) (fd, td *thrift.TypeDescriptor, err error) {
 
 // ---- projection model ----
 
-type mopts struct{ disallowUnknown, noCheckReq, writeDefault bool }
+type mopts struct{ disallowUnknown, noCheckReq, writeDefault, trackOptional bool }
 
 type modelErr string
 
@@ -519,6 +521,11 @@ func project(v *tbin.Val, fs, ts *tbin.Shape, fd, td *thrift.TypeDescriptor, o m
 					if o.writeDefault {
 						out.Fs = append(out.Fs, tbin.Field{ID: tf.ID, V: zero(tf.S)})
 					}
+				case 2:
+					// optional fields are owed only when the descriptor was parsed to track them (SetOptionalBitmap)
+					if o.writeDefault && o.trackOptional {
+						out.Fs = append(out.Fs, tbin.Field{ID: tf.ID, V: zero(tf.S)})
+					}
 				}
 			}
 		}
@@ -581,7 +588,7 @@ func run(p pair, parse, variant string) core.Result {
 	in := tbin.Bytes(v)
 	classes := map[string]bool{}
 	for m := 0; m < 16; m++ {
-		o := mopts{disallowUnknown: m&1 != 0, noCheckReq: m&2 != 0, writeDefault: m&4 != 0}
+		o := mopts{disallowUnknown: m&1 != 0, noCheckReq: m&2 != 0, writeDefault: m&4 != 0, trackOptional: strings.Contains(parse, "SetOptionalBitmap")}
 		opts := &generic.Options{DisallowUnknow: o.disallowUnknown, NotCheckRequireNess: o.noCheckReq, WriteDefault: o.writeDefault, UseNativeSkip: m&8 != 0}
 		want, werr := project(v, p.from, p.to, fd, td, o)
 		trig := fmt.Sprintf("%s,%s,%s", p.kind, parse, variant)
